@@ -216,6 +216,7 @@ pub fn knobs(profile: &str, thorough: bool, rng: &mut Rng) -> Knobs {
                 kn.consuming_on_adopted = true;
                 kn.drain_consuming = rng.chance(1, 2);
                 set_w(&mut kn, K::TryUnwrap, 3);
+                set_w(&mut kn, K::CloneFrom, 2);
                 set_w(&mut kn, K::MakeMut, 3);
                 set_w(&mut kn, K::DropValue, 2);
                 set_w(&mut kn, K::IntoRaw, 1);
@@ -245,6 +246,7 @@ pub fn knobs(profile: &str, thorough: bool, rng: &mut Rng) -> Knobs {
             if rng.chance(1, 3) {
                 kn.drain_consuming = true;
                 set_w(&mut kn, K::MakeMut, 2);
+                set_w(&mut kn, K::CloneFrom, 2);
                 set_w(&mut kn, K::TryUnwrap, 1);
                 set_w(&mut kn, K::DropValue, 1);
             }
@@ -282,6 +284,7 @@ pub fn knobs(profile: &str, thorough: bool, rng: &mut Rng) -> Knobs {
             // handle-creating / handle-consuming calls are handle creation and destruction too
             if rng.chance(1, 2) {
                 set_w(&mut kn, K::MakeMut, 3);
+                set_w(&mut kn, K::CloneFrom, 2);
                 set_w(&mut kn, K::SlotMakeMut, 2);
                 set_w(&mut kn, K::TryUnwrap, 1);
                 set_w(&mut kn, K::GetMut, 1);
@@ -397,6 +400,7 @@ pub fn knobs(profile: &str, thorough: bool, rng: &mut Rng) -> Knobs {
             kn.consuming_on_adopted = true;
             kn.drain_consuming = rng.chance(1, 2);
             set_w(&mut kn, K::TryUnwrap, 5);
+            set_w(&mut kn, K::CloneFrom, 2);
             set_w(&mut kn, K::MakeMut, 6);
             set_w(&mut kn, K::SlotMakeMut, 4);
             set_w(&mut kn, K::GetMut, 2);
